@@ -1,92 +1,10 @@
 -------------------------------- MODULE Grid --------------------------------
 (***************************************************************************)
-(* Structured grid of pymoto/common/domain.py (DomainDefinition):           *)
-(* element / node numbering, connectivity, dof connectivity, node           *)
-(* positions and the (bi/tri)linear shape functions with their              *)
-(* derivatives, in exact rational arithmetic.                               *)
-(*                                                                          *)
-(* Operational part: the index formulas as the code computes them.          *)
-(* Declarative part: C13 (bijections, corner sets in documented local       *)
-(* order, per-dof expansion, positions, partition of unity, Kronecker       *)
-(* property, derivative = exact difference quotient).                       *)
+(* Case enumeration for C13 over the operators of GridOps.tla: one state   *)
+(* per (grid, element-size triple); see GridOps.tla for the operational    *)
+(* index formulas and the declarative statement of C13.                    *)
 (***************************************************************************)
-EXTENDS Num, TLC, Json
-
-(* ---- operational: a grid is a record [nx, ny, nz] ; nz = 0 means 2D ---- *)
-Dim(g) == IF g.nz = 0 THEN 2 ELSE 3
-NZ1(g) == IF g.nz = 0 THEN 1 ELSE g.nz
-Nel(g) == g.nx * g.ny * NZ1(g)
-NNodes(g) == (g.nx + 1) * (g.ny + 1) * (g.nz + 1)
-ElemNodes(g) == IF Dim(g) = 2 THEN 4 ELSE 8
-ElemNo(g, i, j, k) == (k * g.ny + j) * g.nx + i
-NodeNo(g, i, j, k) == (k * (g.ny + 1) + j) * (g.nx + 1) + i
-NodeIdx(g, n) == <<n % (g.nx + 1), (n \div (g.nx + 1)) % (g.ny + 1), n \div ((g.nx + 1) * (g.ny + 1))>>
-(* documented local node order: x fastest, then y, then z; entries are -1 / +1 *)
-CONSTANT Variant
-Numbering(g) == IF Dim(g) = 2
-                THEN IF Variant = "local_order_swapped" THEN <<(<<-1, -1, 0>>), (<<-1, 1, 0>>), (<<1, -1, 0>>), (<<1, 1, 0>>)>>
-                     ELSE <<(<<-1, -1, 0>>), (<<1, -1, 0>>), (<<-1, 1, 0>>), (<<1, 1, 0>>)>>
-                ELSE <<(<<-1, -1, -1>>), (<<1, -1, -1>>), (<<-1, 1, -1>>), (<<1, 1, -1>>),
-                       (<<-1, -1, 1>>), (<<1, -1, 1>>), (<<-1, 1, 1>>), (<<1, 1, 1>>)>>
-Max0(x) == IF x > 0 THEN x ELSE 0
-Conn(g, i, j, k) == Tup([a \in 1..ElemNodes(g) |->
-                        NodeNo(g, i + Max0(Numbering(g)[a][1]), j + Max0(Numbering(g)[a][2]), k + Max0(Numbering(g)[a][3]))])
-DofConn(g, i, j, k, ndof) == Tup([q \in 1..(ElemNodes(g) * ndof) |->
-                        Conn(g, i, j, k)[((q - 1) \div ndof) + 1] * ndof + ((q - 1) % ndof)])
-
-ElemIdx(g) == {<<i, j, k>> : i \in 0..g.nx - 1, j \in 0..g.ny - 1, k \in 0..NZ1(g) - 1}
-NodeIdxSet(g) == {<<i, j, k>> : i \in 0..g.nx, j \in 0..g.ny, k \in 0..g.nz}
-
-(* shape functions at the lattice point t (t[d] in -2..2 stands for the coordinate t[d]/4 * size[d]) *)
-ShapeFn(g, a, t) ==
-  LET f(d) == Q(2 + Numbering(g)[a][d] * t[d], 4) IN
-  IF Dim(g) = 2 THEN QMul(f(1), f(2)) ELSE QMul(QMul(f(1), f(2)), f(3))
-(* derivative with respect to coordinate i (sizes are rationals) *)
-ShapeDer(g, a, t, i, size) ==
-  LET f(d) == IF d = i THEN QDiv(QI(Numbering(g)[a][d]), size[d]) ELSE Q(2 + Numbering(g)[a][d] * t[d], 4) IN
-  IF Dim(g) = 2 THEN QMul(f(1), f(2)) ELSE QMul(QMul(f(1), f(2)), f(3))
-Lattice(g) == IF Dim(g) = 2 THEN {<<a, b, 0>> : a \in -2..2, b \in -2..2}
-              ELSE {<<a, b, c>> : a \in -2..2, b \in -2..2, c \in -2..2}
-RECURSIVE QSum(_)
-QSum(s) == IF s = <<>> THEN QZero ELSE QAdd(s[1], QSum(Tail(s)))
-
------------------------------------------------------------------------------
-(* ---- declarative: C13 ---- *)
-ElemBijection(g) ==
-  /\ \A e \in ElemIdx(g) : ElemNo(g, e[1], e[2], e[3]) \in 0..Nel(g) - 1
-  /\ \A e, f \in ElemIdx(g) : e # f => ElemNo(g, e[1], e[2], e[3]) # ElemNo(g, f[1], f[2], f[3])
-NodeBijection(g) ==
-  /\ \A n \in NodeIdxSet(g) : NodeNo(g, n[1], n[2], n[3]) \in 0..NNodes(g) - 1
-  /\ \A n \in NodeIdxSet(g) : NodeIdx(g, NodeNo(g, n[1], n[2], n[3])) = n       \* hence injective
-  /\ \A m \in 0..NNodes(g) - 1 : NodeIdx(g, m) \in NodeIdxSet(g)
-(* each element's connectivity lists exactly its 2^dim corners, corner (a,b,c) at local position a + 2b + 4c *)
-ConnCorners(g) ==
-  \A e \in ElemIdx(g) :
-     LET cn == Conn(g, e[1], e[2], e[3]) IN
-     /\ Len(cn) = ElemNodes(g)
-     /\ \A a \in 0..1, b \in 0..1, c \in 0..(IF Dim(g) = 3 THEN 1 ELSE 0) :
-          cn[1 + a + 2 * b + 4 * c] = NodeNo(g, e[1] + a, e[2] + b, e[3] + c)
-DofExpansion(g, ndof) ==
-  \A e \in ElemIdx(g) :
-     LET cn == Conn(g, e[1], e[2], e[3])  dc == DofConn(g, e[1], e[2], e[3], ndof) IN
-     /\ Len(dc) = ndof * ElemNodes(g)
-     /\ \A a \in 1..ElemNodes(g), d \in 0..ndof - 1 : dc[(a - 1) * ndof + d + 1] = cn[a] * ndof + d
-ShapeProps(g) ==
-  \A t \in Lattice(g) :
-     /\ \A a \in 1..ElemNodes(g) : QLeq(QZero, ShapeFn(g, a, t))
-     /\ QSum(Tup([a \in 1..ElemNodes(g) |-> ShapeFn(g, a, t)])) = QOne
-Kronecker(g) ==
-  \A a, b \in 1..ElemNodes(g) :
-     LET t == Tup([d \in 1..3 |-> 2 * Numbering(g)[b][d]]) IN     \* the position of node b
-     ShapeFn(g, a, t) = IF a = b THEN QOne ELSE QZero
-(* the reported derivative is the gradient: equal to the difference quotient over one lattice step (exact, as *)
-(* each shape function is affine in every coordinate)                                                        *)
-DerIsGradient(g, size) ==
-  \A t \in Lattice(g), a \in 1..ElemNodes(g), i \in 1..Dim(g) :
-     t[i] < 2 =>
-       LET t2 == [t EXCEPT ![i] = t[i] + 1]
-           h == QDiv(size[i], QI(4)) IN
-       QDiv(QSub(ShapeFn(g, a, t2), ShapeFn(g, a, t)), h) = ShapeDer(g, a, t, i, size)
+EXTENDS GridOps
 
 -----------------------------------------------------------------------------
 (* ---- case enumeration: one state per grid ---- *)
